@@ -1101,6 +1101,7 @@ impl Monitor for C13 {
             ("raw_grammar", tier.pick(2_000_000, 20_000_000)),
             ("raw_rand", tier.pick(1_500_000, 15_000_000)),
             ("raw_mut", tier.pick(1_500_000, 15_000_000)),
+            ("api", tier.pick(500_000, 5_000_000)),
         ]
     }
 
@@ -1112,6 +1113,7 @@ impl Monitor for C13 {
             }
         }
         match engine {
+            "api" => super::api::c13(rep, rng),
             "list_exh" => {
                 // the depth follows from the index: the quick domain is a prefix of the thorough one
                 let shapes = list_shape_from_idx(idx, THOROUGH_LIST_DEPTH);
